@@ -120,3 +120,16 @@ def nontrivial(case, reply):
     if f[0] == "hexr":
         return f[2] != "-" or reply.startswith("err")
     return f[2] != "-"
+
+MANIFEST = {
+    "text": "Proof: readAll_correct — for every text, every fragmentation schedule of the underlying reader and every sequence of "
+            "caller buffer sizes, reading to the end through the HexRead model yields exactly the bytes the text denotes, or an "
+            "error iff it is malformed, and bytes delivered before an error decode a prefix correctly (induction on the remaining "
+            "text with an inner-loop characterisation; fuel bounds proved). HexWrite: even acceptances give sink = lowercase hex of "
+            "the reported bytes, an odd acceptance is an error, encode-then-decode is the identity. No bound on lengths or schedules.",
+    "note": "Trusted: Lean kernel; Hex/Model.lean (transcription of impl Read for HexRead / impl Write for HexWrite, hex crate codec, "
+            "char::is_whitespace on Latin-1) tied to etk-cli by the differential run behind a scripted reader/sink (hook "
+            "etk_cli::io::verif_hex_reader); the io::Read contract of the underlying reader (0 only at end of input) is assumed. "
+            "Partial by nature: OS-level FIFO behaviour is not modelled.",
+    "technique": "Lean 4 inductive proof over texts x reader schedules x buffer sizes + differential correspondence (scripted reader/sink)",
+}
